@@ -84,17 +84,17 @@ class _DuckAln:
 class _World:
     """Common driver of ReadSetReader.read() for both worlds."""
 
-    def run(self, overhang, variants, reference, alignments):
+    def run(self, overhang, variants, reference, alignments, with_source=False):
         """variants: [(pos, ref codes, [alt codes, ...])]; reference: codes or None;
-        alignments: [(name, flag, start, cigar, seq codes, quals)].
-        Returns [(read name, [(position, allele, quality), ...]), ...]."""
+        alignments: [(name, flag, start, cigar, seq codes, quals[, source id = index of the input file])].
+        Returns [(read name, [(position, allele, quality), ...]), ...] (with_source: (name, source id, [...]))."""
         vs = []
         for pos, ref, alts in variants:
             if len(alts) == 1:
                 vs.append(self.vcf.BiallelicVcfVariant(pos, self.mkstr(ref), self.mkstr(alts[0])))
             else:
                 vs.append(self.vcf.MultiallelicVcfVariant(pos, self.mkstr(ref), [self.mkstr(a) for a in alts]))
-        alns = [self.bam.AlignmentWithSourceID(0, self.mkaln(*a)) for a in alignments]
+        alns = [self.bam.AlignmentWithSourceID(a[6] if len(a) > 6 else 0, self.mkaln(*a[:6])) for a in alignments]
 
         class Reader:
             def fetch(self, reference=None, sample=None, start=0, end=None):
@@ -107,6 +107,8 @@ class _World:
         rsr = self.variants.ReadSetReader([], None, self.core.NumericSampleIds(), overhang=overhang)
         rsr._reader = Reader()
         readset = rsr.read("chr1", vs, None, None if reference is None else self.mkstr(reference))
+        if with_source:
+            return [(r.name, r.source_id, [(v.position, v.allele, v.quality) for v in r]) for r in readset]
         return [(r.name, [(v.position, v.allele, v.quality) for v in r]) for r in readset]
 
 
